@@ -81,7 +81,11 @@ impl CaoLangAllocator {
         let s = l.size() + l.align();
         let mut allocated = s + self.allocated.fetch_add(s, Ordering::Relaxed);
         let limit = self.limit.load(Ordering::Relaxed);
-        if allocated > self.next_gc.load(Ordering::Relaxed) || allocated > limit {
+        #[cfg(feature = "verif-hooks")]
+        let forced = crate::verif::gc_schedule_next();
+        #[cfg(not(feature = "verif-hooks"))]
+        let forced = false;
+        if forced || allocated > self.next_gc.load(Ordering::Relaxed) || allocated > limit {
             // collect before giving up, and derive the next threshold from what survived
             if !self.runtime.is_null() {
                 unsafe {
